@@ -609,6 +609,12 @@ def run_check(prop, tier, seed, replay):
             corp = corpus_lines(suite)
             ctp = tp + '.corpus'
             crash = None
+            # a suite may be an empty stand-in in this build flavour (e.g. Xen suites in the standard build):
+            # then its corpus does not apply here either
+            ptp = tp + '.probe'
+            run_vmh(exe, ['gen', suite, 'quick', '0'], out_path=ptp, timeout=prop['gen_timeout'], env={'VMH_PROBE': '1'})
+            if corp and os.path.getsize(ptp) == 0:
+                corp = []
             if corp:
                 rc, err = run_vmh(exe, ['replay', suite], stdin_text='\n'.join(corp) + '\n', out_path=ctp, timeout=600)
                 if rc != 0:
